@@ -622,20 +622,27 @@ def _run_scenario(sc):
                 # what result() / raised_exception() answer for every node once the run is over
                 ctx.log("res", 0, snap=[ctx.code(i)[1:3] for i in range(2, ctx.n + 1)])
             ctx.log("top", 1, topv, topi)
+            hung = False
             if topv not in ("deadlock", "livelock"):
-                if topv != "cancelled":
-                    # a later explicit shutdown must send nothing
+                if topv != "cancelled" or ctx.cfg.get("xshut"):
+                    # a later explicit shutdown must send nothing - unless the caller had
+                    # cancelled the run, which then ended without any shutdown phase (xshut)
+                    if ctx.cfg.get("xshut"):
+                        loop.on_tick = ctx.tick     # time may pass while the handlers run
                     try:
                         top.shutdown()
                     except (Deadlock, Livelock):
                         ctx.log("late-hang", 1)
-                # let the loop run on: nothing may happen any more
-                ctx.log("leftover", 1, num=len(loop.unfinished()))
-                loop.horizon = loop.vtime + hor + 1
-                try:
-                    loop.run_until_complete(asyncio.sleep(hor))
-                except (Deadlock, Livelock):
-                    pass
+                        hung = True
+                    loop.on_tick = None
+                if not hung:
+                    # let the loop run on: nothing may happen any more
+                    ctx.log("leftover", 1, num=len(loop.unfinished()))
+                    loop.horizon = loop.vtime + hor + 1
+                    try:
+                        loop.run_until_complete(asyncio.sleep(hor))
+                    except (Deadlock, Livelock):
+                        pass
     finally:
         ctx.closed = True
         CLOCK.loop = None
